@@ -330,6 +330,57 @@ def helix_class():
     return type('HelixMapping', (Mapping,), {'_expressions': exprs, '_ldim': 1, '_pdim': 3}), exprs
 
 
+def sheet_class(name, cls3):
+    """fixed corpus: a user subclass that re-uses the formulas of a 3D catalogue mapping for the surface x3 = 0
+    (_ldim = 2, _pdim = 3: the third logical coordinate does not exist and counts as zero)"""
+    from sympde.topology.mapping import Mapping
+    exprs = {k: str(v) for k, v in cls3._expressions.items()}
+    return type(name, (Mapping,), {'_expressions': dict(exprs), '_ldim': 2, '_pdim': 3}), exprs
+
+
+def param_value(v):
+    """the exact rational value of a parameter handed to a constructor (a float is the rational of its binary value)"""
+    import sympy
+    try:
+        e = exact(sympy.sympify(v))
+        if e.is_number:
+            return e
+    except Exception:
+        pass
+    return sympy.Rational(float(v))
+
+
+def defining_expressions(m, params, coords, byname, rng):
+    """the coordinate expressions rebuilt from the formulas the class declares (`_expressions`), independently of
+    Mapping.__new__: the first pdim formulas, a logical coordinate beyond ldim replaced by zero, the parameters given to
+    the constructor by their exact values, the other symbols by the value the same-named constant of the stored
+    expressions received (`byname`; a fresh random value if the stored expressions have no such constant).
+    None if the class declares no formulas."""
+    import sympy
+    src = getattr(type(m), '_expressions', None)
+    if not isinstance(src, dict):
+        return None
+    lc = ['x1', 'x2', 'x3']
+    out = []
+    for n in ['x', 'y', 'z'][:m.pdim]:
+        if n not in src:
+            return None
+        e = sympy.sympify(src[n])
+        e = e.subs({sympy.Symbol(c): 0 for c in lc[m.ldim:]})
+        sub = {}
+        for a in e.free_symbols:
+            if a.name in lc[:m.ldim]:
+                sub[a] = coords[lc.index(a.name)]
+            elif a.name in params:
+                sub[a] = param_value(params[a.name])
+            else:
+                if a.name not in byname:
+                    byname[a.name] = rat(rng, 0.3, 0.9, 32)
+                sub[a] = byname[a.name]
+        out.append(e.subs(sub))
+    return out
+
+
 # --------------------------------------------------------------------------- shapes
 
 def bshape(shapes):
@@ -466,6 +517,14 @@ def correspondence(ctx):
         except Timeout:
             c.count('timeout:build')
             continue
+        except Exception as e:
+            # an exception of the implementation is a disagreement of this case (the model has an answer for every
+            # shape request), not a crash of the harness; the oracle reports the concrete input
+            c.evaluations += 1
+            c.count('callable-raises')
+            c.disagreements.append({'input': 'C16 callable %s %s %s' % (name, dimstr(d), {k: repr(v) for k, v in params.items()}),
+                                    'impl': 'raised %s: %s' % (type(e).__name__, e), 'model': 'a callable mapping', 'note': 'constructor / get_callable_mapping'})
+            continue
         coords = list(m.logical_coordinates) if m.ldim > 1 else [m.logical_coordinates]
         ld = m.ldim
         for shapes in shape_sets(rng, ld, ctx.thorough):
@@ -519,6 +578,10 @@ def correspondence(ctx):
                 maps.append(('user%d:%s' % (k, exprs_u), cls('U%d' % k, **(vals if rng.random() < 0.5 else {}))))
         except Timeout:
             c.count('timeout:user')
+        except Exception as e:
+            c.evaluations += 1
+            c.disagreements.append({'input': 'C16 user-mapping %s ldim,pdim=%s' % (exprs_u, ldpd(d)), 'impl': 'raised %s: %s' % (type(e).__name__, e),
+                                    'model': 'a mapping', 'note': 'constructor'})
     cached = list(_CACHE.items())
     for (name, d, _), m in cached[:6] + [it for it in cached[6:] if not isinstance(it[0][1], int)][:2]:
         maps.append(('%s_%s' % (name, dimstr(d)), m))
@@ -579,8 +642,10 @@ def shape_of(M):
     return tuple(int(v) for v in sh) if sh is not None else None
 
 
-def check_symbolic(o, tag, m, rng, detail, p_pivot=0.3):
-    """stored J, Jinv, G, detG against independent differentiation / linear algebra, at 50 digits"""
+def check_symbolic(o, tag, m, rng, detail, p_pivot=0.3, params=None):
+    """stored J, Jinv, G, detG against independent differentiation / linear algebra, at 50 digits; with `params` (the
+    keyword arguments the mapping was built with) also the stored coordinate expressions against the formulas the class
+    declares"""
     import sympy
     from sympy import Matrix, Rational
     coords = list(m.logical_coordinates) if m.ldim > 1 else [m.logical_coordinates]
@@ -602,7 +667,10 @@ def check_symbolic(o, tag, m, rng, detail, p_pivot=0.3):
     if shape_of(m.metric_det_expr) is not None:
         o.fail('metric_det-shape:' + tag, 'the stored metric determinant is not a scalar but has shape %s' % (shape_of(m.metric_det_expr),), **detail)
         return
-    consts = {a: rat(rng, 0.3, 0.9, 32) for a in set().union(*[sympy.sympify(e).free_symbols for e in m.expressions]) - set(coords)}
+    consts = {a: rat(rng, 0.3, 0.9, 32) for a in sorted(set().union(*[sympy.sympify(e).free_symbols for e in m.expressions]) - set(coords), key=str)}
+    Xdef = None
+    if params is not None:
+        Xdef = defining_expressions(m, params, coords, {a.name: v for a, v in consts.items()}, rng)
     # with Float parameters sympy has already rounded products and sums while building the stored quantities:
     # the symbolic identities then hold to floating-point accuracy only
     stored_all = list(J) + list(m.metric_expr) + [m.metric_det_expr] + (list(m.jacobian_inv_expr) if m.jacobian_inv_expr is not None else [])
@@ -614,9 +682,21 @@ def check_symbolic(o, tag, m, rng, detail, p_pivot=0.3):
         o.count('symbolic-point:' + ('rational' if all(sympy_rational(p_) and sympy.Rational(p_).q <= 64 for p_ in pt) else 'special'))
         subs = dict(zip(coords, pt))
         subs.update(consts)
+        where = dict(detail, point=[str(p) for p in pt], symbolic_constants={str(k): str(v) for k, v in consts.items()})
+        if Xdef is not None:
+            # the stored coordinate expressions are the formulas of the class (logical coordinates beyond ldim = 0)
+            Xs = [ev(e, subs) for e in m.expressions]
+            Xd = [ev(e, {c: subs[c] for c in coords}) for e in Xdef]
+            alien = sorted(a.name for a in consts if a.name in ('x1', 'x2', 'x3'))
+            if alien or max(abs(a - b) for a, b in zip(Xs, Xd)) > t_exact * max([abs(x) for x in Xd] + [1]):
+                o.fail('expressions:' + tag, 'the stored coordinate expressions are not the formulas of the class with the logical coordinates beyond '
+                       'ldim = %d set to zero and the parameters substituted%s' % (m.ldim, (': they keep the non-existing logical coordinate(s) %s as '
+                       'symbolic constant(s)' % ', '.join(alien)) if alien else ''), stored=[str(e) for e in m.expressions],
+                       formulas={k: str(v) for k, v in type(m)._expressions.items()}, stored_value=[str(sympy.N(v, 20)) for v in Xs],
+                       expected_value=[str(sympy.N(v, 20)) for v in Xd], **where)
+                return
         Jv, Jr = ev_matrix(J, subs), ev_matrix(Jref, subs)
         sc = max([abs(x) for x in Jr] + [1])
-        where = dict(detail, point=[str(p) for p in pt], symbolic_constants={str(k): str(v) for k, v in consts.items()})
         if max(abs(a - b) for a, b in zip(Jv, Jr)) > t_exact * sc:
             o.fail('jac:' + tag, 'the stored Jacobian is not the derivative of the stored coordinate expressions', stored=str(Jv), derivative=str(Jr), **where)
             return
@@ -645,6 +725,18 @@ def check_symbolic(o, tag, m, rng, detail, p_pivot=0.3):
             o.fail('jac_inv-missing:' + tag, 'a square mapping stores no inverse Jacobian', **detail)
 
 
+def snapshot(x):
+    """an independent copy of a returned value"""
+    import numpy as np
+    return np.array(x, dtype=float, copy=True)
+
+
+def unchanged(x, snap):
+    import numpy as np
+    y = np.asarray(x, dtype=float)
+    return y.shape == snap.shape and bool(np.array_equal(y, snap, equal_nan=True))
+
+
 def check_callable(o, tag, m, rng, detail, big, p_pivot=0.3):
     """values and shapes returned by the callable mapping against the exact evaluation of the stored quantities"""
     import numpy as np
@@ -659,8 +751,15 @@ def check_callable(o, tag, m, rng, detail, big, p_pivot=0.3):
     Jref = X.jacobian(coords)
     ld = m.ldim
     qs = quantities_of(F, m)
-    # points
-    for _ in range(3 if big else 2):
+    # scalar points.  Call history: every quantity is first evaluated at all the points and the returned objects are
+    # kept alive ([f.jacobian(*p) for p in pts]); only afterwards is every kept result compared with the exact value at
+    # its own point - a result must not be changed by a later call (seeded change C16-10: one output array re-used
+    # while the shape of the points is unchanged)
+    pts = []
+    want = 3 if big else 2
+    for _ in range(3 * want):
+        if len(pts) == want:
+            break
         pt = regular_point(rng, ld, Jref, coords, p_pivot)
         subs = dict(zip(coords, pt))
         Jr = ev_matrix(Jref, subs)
@@ -675,13 +774,29 @@ def check_callable(o, tag, m, rng, detail, big, p_pivot=0.3):
             refs['jacobian_inv'] = Jr.inv()
         for i, e in enumerate(m.expressions):
             refs['x%d' % i] = ev(e, subs)
-        for label, expr, f in qs:
-            if expr is None:
-                continue
+        pts.append((pt, subs, fl, refs))
+    o.count('history:%d-scalar-points' % len(pts))
+    kept = {}
+    for label, expr, f in qs:
+        if expr is None:
+            continue
+        kept[label] = []
+        for pt, subs, fl, refs in pts:
             try:
                 got = f(*fl)
             except Exception as e:
                 o.fail('callable-%s-raises:%s' % (label, tag), '%s raised %s at a regular point' % (label, type(e).__name__), point=fl, **detail)
+                return
+            kept[label].append((got, snapshot(got)))
+    for n, (pt, subs, fl, refs) in enumerate(pts):
+        for label, expr, f in qs:
+            if expr is None:
+                continue
+            got, snap = kept[label][n]
+            if not unchanged(got, snap):
+                o.fail('overwritten:%s:%s' % (label, tag), 'the result %s returned at point #%d was changed by the evaluation of %s at the following point(s): '
+                       'it was %s when returned and is %s now' % (label, n, label, snap.tolist(), np.asarray(got, dtype=float).tolist()),
+                       points=[q[2] for q in pts], **detail)
                 return
             ref = refs[label]
             stored = ev_matrix(expr, subs) if hasattr(expr, 'shape') else ev(expr, subs)
@@ -711,6 +826,7 @@ def check_callable(o, tag, m, rng, detail, big, p_pivot=0.3):
     # arrays of points
     for shapes in shape_sets(rng, ld, big):
         args = arrays(rng, shapes, ld)
+        args2 = arrays(rng, shapes, ld)
         b = bshape(shapes)
         o.count('arrays:' + ('refused' if b is None else 'ok'))
         for label, expr, f in qs:
@@ -738,10 +854,27 @@ def check_callable(o, tag, m, rng, detail, big, p_pivot=0.3):
                 return
             if 0 in b:
                 continue
-            # values at a few positions against the scalar evaluation
+            # call history: a second evaluation on other points of the same shapes while the first result is kept
+            snap = snapshot(got)
+            try:
+                got2 = f(*args2)
+            except Exception as e:
+                o.fail('arrays-%s-raises:%s' % (label, tag), '%s raised %s on argument shapes %s' % (label, type(e).__name__, shapes), **detail)
+                return
+            if not unchanged(got, snap):
+                o.fail('overwritten-array:%s:%s' % (label, tag), 'the array %s returned on points of shapes %s was changed by the next evaluation of %s on other '
+                       'points of the same shapes (largest change %.3g)' % (label, shapes, label, float(np.max(np.abs(np.asarray(got, dtype=float) - snap)))),
+                       first_points=[np.asarray(a).tolist() for a in args], second_points=[np.asarray(a).tolist() for a in args2], **detail)
+                return
+            if shp(got2) != comp + b:
+                o.fail('arrays-shape:%s:%s:%s' % (label, tag, shapes), '%s on argument shapes %s has shape %s at the second call; expected %s'
+                       % (label, shapes, shp(got2), comp + b), **detail)
+                return
+            # values at a few positions against the scalar evaluation (both kept results)
             bc = np.broadcast_arrays(*[np.asarray(a) for a in args]) if b else [np.asarray(a) for a in args]
-            got = np.asarray(got, dtype=float)
-            for _ in range(2):
+            bc2 = np.broadcast_arrays(*[np.asarray(a) for a in args2]) if b else [np.asarray(a) for a in args2]
+            got, got2 = np.asarray(got, dtype=float), np.asarray(got2, dtype=float)
+            for bc, got in ((bc, got), (bc, got), (bc2, got2)):
                 idx = tuple(rng.randrange(n) for n in b)
                 pt = [sympy.Rational(float(a[idx])) for a in bc]
                 subs = dict(zip(coords, pt))
@@ -772,12 +905,34 @@ FIXED = [
     ('fixed:AffineMapping:2x3:sfloat', 'AffineMapping', (2, 3), {'c1': ('Float', '1/2'), 'c2': ('rat', '1/4'), 'c3': ('int', '0'), 'a11': ('Float', '2'), 'a12': ('sympify', '1/2'),
                                                                    'a21': ('evalf', '-3/4'), 'a22': ('int', '1'), 'a31': ('rat', '1/2'), 'a32': ('Float', '-5/4')}, 0.3),
     ('fixed:IdentityMapping:1x2', 'IdentityMapping', (1, 2), {}, 0.3),
+    # a plane / a line in space given with the whole 3 x 3 coefficient matrix: the columns that multiply the logical
+    # coordinates beyond ldim are irrelevant (seeded C16-9)
+    ('fixed:AffineMapping:2x3:full', 'AffineMapping', (2, 3), {'c1': ('int', '1'), 'c2': ('int', '-2'), 'c3': ('rat', '1/2'), 'a11': ('int', '3'), 'a12': ('int', '1'),
+                                                                'a13': ('int', '7'), 'a21': ('int', '4'), 'a22': ('int', '2'), 'a23': ('int', '-5'), 'a31': ('int', '1'),
+                                                                'a32': ('int', '5'), 'a33': ('int', '2')}, 0.3),
+    ('fixed:AffineMapping:1x3:full:float', 'AffineMapping', (1, 3), {'c1': ('float', '5/4'), 'c2': ('float', '-7/4'), 'c3': ('float', '3/4'), 'a11': ('float', '13/4'),
+                                                                      'a12': ('float', '5/4'), 'a13': ('np.float64', '29/4'), 'a21': ('float', '17/4'), 'a22': ('float', '9/4'),
+                                                                      'a23': ('float', '-19/4'), 'a31': ('float', '5/4'), 'a32': ('Float', '21/4'), 'a33': ('float', '9/4')}, 0.3),
+]
+
+# fixed corpus: user subclasses re-using the formulas of a 3D catalogue mapping for the surface x3 = 0 (_ldim = 2, _pdim = 3)
+SHEETS = [
+    ('fixed:user-sheet:TwistedTargetMapping:2x3', 'TwistedTargetMapping', {'c1': '0', 'c2': '1', 'c3': '2', 'k': '3/10', 'D': '1/5'}),
+    ('fixed:user-sheet:TorusMapping:2x3', 'TorusMapping', {'R0': '5/2'}),
 ]
 
 
 def detail_of(name, d, params, how, kind):
     return {'mapping': name, 'dim': list(d) if not isinstance(d, int) else d, 'kind': kind,
             'params': {k: repr(v) for k, v in params.items()}, 'how': dict(how)}
+
+
+def raised(o, tag, e, detail):
+    """an exception raised by the implementation while a case is built or evaluated is a failure of that case"""
+    import traceback
+    tb = traceback.extract_tb(e.__traceback__)
+    where = ['%s:%d %s' % (fr.filename, fr.lineno, fr.name) for fr in tb[-4:]]
+    o.fail('raises:' + tag, 'building or checking the mapping raised %s: %s' % (type(e).__name__, e), traceback=where, **detail)
 
 
 def oracle(ctx, factor, seeds):
@@ -799,10 +954,12 @@ def oracle(ctx, factor, seeds):
         try:
             with time_limit(240):
                 m0 = build(name, cat[name], d, fp)
-                check_symbolic(o, tag, m0, rng, det0, pp)
+                check_symbolic(o, tag, m0, rng, det0, pp, params=fp)
                 check_callable(o, tag, m0, rng, det0, False, pp)
         except Timeout:
             o.count('timeout')
+        except Exception as e:
+            raised(o, tag, e, det0)
     # fixed user curve (a helix: ldim = 1, pdim = 3), numeric and symbolic parameters
     hcls, hexprs = helix_class()
     for tag, vals in (('fixed:user-helix:1x3:rat', {'R': sympy.Integer(2), 'h': sympy.Rational(1, 2)}), ('fixed:user-helix:1x3:symbolic', {})):
@@ -812,11 +969,31 @@ def oracle(ctx, factor, seeds):
         try:
             with time_limit(120):
                 m = hcls('H%d' % len(vals), **vals)
-                check_symbolic(o, tag, m, rng, detail)
+                check_symbolic(o, tag, m, rng, detail, params=vals)
                 if vals:
                     check_callable(o, tag, m, rng, detail, False)
         except Timeout:
             o.count('timeout')
+        except Exception as e:
+            raised(o, tag, e, detail)
+    # fixed user surfaces: the sheet x3 = 0 of a 3D catalogue mapping (ldim = 2, pdim = 3, formulas mentioning x3)
+    for tag, name3, spec in SHEETS:
+        if name3 not in cat:
+            continue
+        o.evaluations += 1
+        o.count('fixed')
+        scls, sexprs = sheet_class('Sheet' + name3, cat[name3])
+        vals = {a: sympy.Rational(b) for a, b in spec.items()}
+        detail = {'mapping': 'user subclass', 'ldim': 2, 'pdim': 3, 'expressions': sexprs, 'params': {a: str(b) for a, b in vals.items()}}
+        try:
+            with time_limit(120):
+                m = scls('S' + name3[:3], **vals)
+                check_symbolic(o, tag, m, rng, detail, params=vals)
+                check_callable(o, tag, m, rng, detail, False)
+        except Timeout:
+            o.count('timeout')
+        except Exception as e:
+            raised(o, tag, e, detail)
     for name, cls, d, kind in todo:
         how = {}
         params = params_for(name, d, rng, kind, how)
@@ -831,10 +1008,12 @@ def oracle(ctx, factor, seeds):
                 m = build(name, cls, d, params)
                 if len(o.samples) < 4:
                     o.samples.append({'mapping': name, 'dim': d, 'params': detail['params'], 'metric_det': str(m.metric_det_expr)[:200]})
-                check_symbolic(o, tag, m, rng, detail)
+                check_symbolic(o, tag, m, rng, detail, params=params)
                 check_callable(o, tag, m, rng, detail, ctx.thorough)
         except Timeout:
             o.count('timeout')
+        except Exception as e:
+            raised(o, tag, e, detail)
     # symbolic parameters (the objects the generated theorems are about; the ldim < pdim variants of the classes without a
     # fixed dimension are not among the generated theorem blocks: covered here only)
     for name, cls, dims in T.catalogue():
@@ -842,13 +1021,16 @@ def oracle(ctx, factor, seeds):
             if not ctx.thorough and name == 'CzarnyMapping' and factor == 1 and ctx.seed % 2:
                 continue
             o.evaluations += 1
+            tag = '%s:%s:symbolic' % (name, dimstr(d))
+            detail = {'mapping': name, 'dim': list(d) if not isinstance(d, int) else d, 'params': 'symbolic'}
             try:
                 with time_limit(240):
                     m = build(name, cls, d, {})
-                    check_symbolic(o, '%s:%s:symbolic' % (name, dimstr(d)), m, rng,
-                                   {'mapping': name, 'dim': list(d) if not isinstance(d, int) else d, 'params': 'symbolic'})
+                    check_symbolic(o, tag, m, rng, detail, params={})
             except Timeout:
                 o.count('timeout')
+            except Exception as e:
+                raised(o, tag, e, detail)
     # user subclasses defined the same way
     for k in range((10 if ctx.thorough else 3) * factor):
         d = rng.choice(USER_DIMS)
@@ -860,10 +1042,12 @@ def oracle(ctx, factor, seeds):
         try:
             with time_limit(120):
                 m = cls('V%d' % k, **vals)
-                check_symbolic(o, 'user:%s' % sorted(exprs.items()), m, rng, detail)
+                check_symbolic(o, 'user:%s' % sorted(exprs.items()), m, rng, detail, params=vals)
                 check_callable(o, 'user:%s' % sorted(exprs.items()), m, rng, detail, False)
         except Timeout:
             o.count('timeout')
+        except Exception as e:
+            raised(o, 'user:%s' % sorted(exprs.items()), e, detail)
     return o
 
 
@@ -875,29 +1059,42 @@ def replay(ctx, path):
     name = det.get('mapping')
     cat = {n: (c, dims) for n, c, dims in T.catalogue()}
     m = None
-    if name in cat and isinstance(det.get('params'), dict):
-        import sympy
-        if isinstance(det.get('how'), dict):
-            params = {k: make_param(v, h) for k, (h, v) in det['how'].items()}
-        else:       # replay files written before the parameter constructors were recorded
-            params = {k: sympy.sympify(v) if not v.startswith('0.') and '.' not in v else float(v) for k, v in det['params'].items()}
-        dim = det['dim'] if isinstance(det['dim'], int) else tuple(det['dim'])
-        m = build(name, cat[name][0], dim, params)
-    elif name == 'user subclass' and isinstance(det.get('expressions'), dict):
-        import sympy
-        from sympde.topology.mapping import Mapping
-        ex = det['expressions']
-        ld = int(det.get('ldim', len(ex)))
-        cls = type('ReplayMapping', (Mapping,), {'_expressions': ex, '_ldim': ld, '_pdim': int(det.get('pdim', len(ex)))})
-        m = cls('R', **{k: sympy.sympify(v) for k, v in (det.get('params') or {}).items()})
+    rparams = None
+    try:
+        if name in cat and (isinstance(det.get('params'), dict) or det.get('params') == 'symbolic'):
+            import sympy
+            if det.get('params') == 'symbolic':
+                params = {}
+            elif isinstance(det.get('how'), dict):
+                params = {k: make_param(v, h) for k, (h, v) in det['how'].items()}
+            else:       # replay files written before the parameter constructors were recorded
+                params = {k: sympy.sympify(v) if not v.startswith('0.') and '.' not in v else float(v) for k, v in det['params'].items()}
+            dim = det['dim'] if isinstance(det['dim'], int) else tuple(det['dim'])
+            rparams = params
+            m = build(name, cat[name][0], dim, params)
+        elif name == 'user subclass' and isinstance(det.get('expressions'), dict):
+            import sympy
+            from sympde.topology.mapping import Mapping
+            ex = det['expressions']
+            ld = int(det.get('ldim', len(ex)))
+            cls = type('ReplayMapping', (Mapping,), {'_expressions': ex, '_ldim': ld, '_pdim': int(det.get('pdim', len(ex)))})
+            rparams = {k: sympy.sympify(v) for k, v in (det.get('params') or {}).items()}
+            m = cls('R', **rparams)
+    except Exception as e:
+        print('REPRODUCED raises: the constructor raised %s: %s' % (type(e).__name__, e))
+        print('VIOLATION property=%s replay=%s' % (PID, path))
+        return 1
     if m is not None:
         o = Oracle()
         tag = 'replay'
         det = {k: v for k, v in det.items() if k in ('mapping', 'dim', 'kind', 'params', 'how', 'p_pivot', 'expressions', 'ldim', 'pdim')}
         for pp in (float(det.get('p_pivot', 0.3)), 1.0, 0.3, 0.0):
-            check_symbolic(o, tag, m, ctx.rng, det, pp)
-            if det.get('params') != 'symbolic' and not getattr(m, '_constants', ()):
-                check_callable(o, tag, m, ctx.rng, det, True, pp)
+            try:
+                check_symbolic(o, tag, m, ctx.rng, det, pp, params=rparams)
+                if det.get('params') != 'symbolic' and (not getattr(m, '_constants', ()) or d.get('key', '').startswith(('callable-raises', 'raises'))):
+                    check_callable(o, tag, m, ctx.rng, det, True, pp)
+            except Exception as e:
+                raised(o, tag, e, det)
             if o.failures:
                 break
         for f in o.failures:
